@@ -101,7 +101,12 @@ fn random_run<P: Pad>(seed: u64, run: u64, ops: usize, ns: u32, np: u32, nw: u32
                     director::gen_probe(r, w);
                 }
                 match r.queue.pop_front() {
-                    Some(op) => Some(op),
+                    Some(mut op) => {
+                        if let Some(k) = op.as_object_mut().and_then(|m| m.remove("armdrop")) {
+                            r.arm_drop = k.as_u64().map(|k| k as u32);
+                        }
+                        Some(op)
+                    }
                     None => director::gen_top_op(r, w),
                 }
             })
